@@ -257,7 +257,17 @@ func runC11(w *mon.W) {
 				if r.Intn(2) == 0 {
 					c = 'N'
 				}
-				sb.WriteString(strings.Repeat(string(c), 1+r.Intn(60)))
+				run := 1 + r.Intn(60)
+				if r.Intn(6) == 0 {
+					run = []int{100, 255, 256, 257, 300, 512, 200 + r.Intn(900)}[r.Intn(7)] // scaffold gaps, long homopolymer tracts
+				}
+				sb.WriteString(strings.Repeat(string(c), run))
+			}
+			if sb.Len() > n && r.Intn(2) == 0 {
+				n = sb.Len()
+				if n > 10000 {
+					n = 10000
+				}
 			}
 			s = randCase(r, sb.String()[:n], []float64{0.5, 0.5, 0.1}[r.Intn(3)])
 			w.Add("strings_made_of_runs", 1)
